@@ -986,19 +986,23 @@ bool client::try_parse_pasv_reply(const reply & reply, std::string & ip, uint16_
     std::string_view address_string = status_string.substr(begin, end - begin);
     std::vector<std::string> address_tokens = utils::split_string(address_string, ',');
 
-    if (address_tokens.size() != 6)
+    /* Exactly six fields. The 'split_string' function drops an empty last
+     * field, do not take "h1,h2,h3,h4,p1,p2," for six fields.
+     */
+    if (address_tokens.size() != 6 || address_string.back() == ',')
     {
         return false;
     }
 
-    ip.clear();
-    ip.append(address_tokens[0]);
-    ip.append(".");
-    ip.append(address_tokens[1]);
-    ip.append(".");
-    ip.append(address_tokens[2]);
-    ip.append(".");
-    ip.append(address_tokens[3]);
+    /* Each field is an 8-bit decimal number. */
+    std::uint8_t host[4];
+    for (std::size_t i = 0; i < 4; i++)
+    {
+        if (!utils::try_parse_uint8(address_tokens[i], host[i]))
+        {
+            return false;
+        }
+    }
 
     std::uint8_t port_high;
     if (!utils::try_parse_uint8(address_tokens[4], port_high))
@@ -1011,6 +1015,15 @@ bool client::try_parse_pasv_reply(const reply & reply, std::string & ip, uint16_
     {
         return false;
     }
+
+    ip.clear();
+    ip.append(std::to_string(host[0]));
+    ip.append(".");
+    ip.append(std::to_string(host[1]));
+    ip.append(".");
+    ip.append(std::to_string(host[2]));
+    ip.append(".");
+    ip.append(std::to_string(host[3]));
 
     port = port_high * 256 + port_low;
     return true;
